@@ -779,7 +779,7 @@ impl AExec {
                 }
                 Ok(Out::Unit)
             }
-            Op::EnvNonUtf8(_) | Op::EnvDanglingSymlink(_) | Op::EnvRemoveBehind(_) | Op::EnvSpecial(..) => Ok(Out::Unit),
+            Op::EnvNonUtf8(_) | Op::EnvDanglingSymlink(_) | Op::EnvRemoveBehind(_) | Op::EnvSpecial(..) | Op::Reopen => Ok(Out::Unit),
         }
     }
 }
